@@ -357,7 +357,33 @@ class C07(Check):
 
             self._with_table(case, one)
 
+    def _marker_payloads(self, case: Any, res: CaseResult) -> None:
+        """damaged payload of the marker that protects an in-commit manifest / an open transaction's data file"""
+        for pname, payload in MARKER_PAYLOADS:
+            for which in ("manifest_marker", "data_marker"):
+                def one(h: history.History, ip: Interposer, store: Any, rng: Any) -> None:
+                    sc = build(h, rng)
+                    if which == "manifest_marker":
+                        target = sc["marker"]
+                    else:
+                        target = h.open_txs[0][0]._inflight_markers[0]
+                    self._write_raw(h, target, payload)
+                    # the marker itself stays fresh (a live transaction)
+                    if h.backend == "local":
+                        os.utime(os.path.join(h.root, target), None)
+                    else:
+                        h.store.set_age(h.s3env.bucket, h.s3env.full_prefix(h.table_path) + "/" + target, 0)
+                    res.count("damage_applied")
+                    before = reader.file_fingerprint(h.blobs())
+                    ok, err = self._collect(h)
+                    res.key(["marker_payload", case["backend"], pname, which])
+                    self._judge(h, sc, before, ok, err, res, f"marker-payload:{pname}:{which}",
+                                {"backend": case["backend"], "marker": target, "payload": repr(payload)})
+
+                self._with_table(case, one)
+
     def _marker(self, case: Any, res: CaseResult) -> None:
+        self._marker_payloads(case, res)
         modes = [("read_file", "metadata/inflight"), ("open_file", "metadata/inflight"),
                  ("get_modified_time", "metadata/inflight"),
                  ("delete_file", "metadata/inflight"), ("list_files", "metadata/inflight"),
@@ -395,6 +421,11 @@ class C07(Check):
                                  "fired": fired[:3]})
 
                 self._with_table(case, one)
+
+
+MARKER_PAYLOADS = [("empty", b""), ("whitespace", b"  \n"), ("garbage", b"\xff\x00garbage"), ("empty_object", b"{}"),
+                   ("non_string_target", b'{"file_path": 5}'), ("list", b"[]"), ("truncated_json", b'{"file_path": "metadata/mani'),
+                   ("null_target", b'{"file_path": null}')]
 
 
 def _pclass(path: Optional[str]) -> str:
